@@ -13,7 +13,7 @@ func init() {
 		Title: "Filters run container, service, route in order, each once, per request",
 		Decided: "C06.a the routed chain's filter slice is a fresh slice filled, in this order, with the container's, the selected service's and the selected route's filters and nothing else, its target is the selected route's function, and the no-filter shortcut is taken only when all three lists are empty; error and plain-handler chains hold exactly the container filters around a target that runs no service or route code; " +
 			"C06.b the chain step performs exactly one dynamic call per invocation: the filter at the old index after advancing the index, or the target when the filters are exhausted, with the method's own arguments; C06.c every chain on the request path is a function-local object processed exactly once with the pair wrapped on that path; " +
-			"C06.d the http-middleware adapter rebinds request and response before it continues the chain, exactly once; C06.f every path of the routing-failure branch processes one chain; C06.e the request/response pair handed to the chain or the route function is the one pair built for this request. C06.g no list field is assigned append(<list of another object>, ...), and a list taken over from another object is not grown in place (filters of routes built from one group or service do not share a backing array).",
+			"C06.d the http-middleware adapter rebinds request and response before it continues the chain, exactly once; C06.f every path of the routing-failure branch processes one chain; C06.e the request/response pair handed to the chain or the route function is the one pair built for this request. C06.g no list field is assigned append(<list of another object>, ...), and a list taken over from another object is not grown in place (filters of routes built from one group or service do not share a backing array). C06.h a function literal of route-function shape built by the module works on the *Request/*Response it is called with, not on a captured pair.",
 		NotDecided: "what user filters do with the chain pointer they receive (calling ProcessFilter twice re-enters later filters by design of the API).",
 		Rules: []Rule{
 			{ID: "C06.a", Template: "T-PROV", Required: true,
@@ -30,6 +30,8 @@ func init() {
 				Run: ruleC06d},
 			{ID: "C06.g", Template: "T-FRESH", Required: true, Run: ruleNoSharedBackingArrays,
 				Doc: "The filter list of a route (and every other configuration list) is not built on another object's backing array: no field is assigned `append(<list of another object>, ...)`, and a list taken over as it is from another object is not grown in place afterwards. With 3, 5, 6, 7 ... elements in the shared list two routes built from it run each other's last filter."},
+			{ID: "C06.h", Template: "T-PROV", Required: false, Run: ruleTargetUsesItsPair,
+				Doc: "What runs behind the filters sees what the filters passed on: a function literal of route-function shape built by the module (the Target of the error chain, a wrapped handler) uses the *Request and *Response it is called with, not a pair captured from the enclosing function."},
 			{ID: "C06.f", Template: "T-ONCE", Required: true,
 				Doc: "Routing failures: on every path from the branch taken when SelectRoute returned an error to a return, exactly one chain is processed (C06.a decides that this chain holds exactly the container filters). An early return for some kinds of error (a custom router's plain error) answers without the container filters.",
 				Run: ruleC06f},
